@@ -140,7 +140,7 @@ def run_case(case, fault=None):
     cfg = mk_cfg(case['cfg'])
     if case['cfg'].get('bad') == 'mode' and len(cfg['protect']) >= 2:
         pass
-    mons = [SM.SadEqualsTracked(), RekeyTouchesNothing(), SM.TableExact()]
+    mons = [SM.SadEqualsTracked(at_rest=True), RekeyTouchesNothing(), SM.TableExact()]
     if fault is None:
         mons.append(SM.NoEscape())
     if fault is None and not any(o[0] in ('rewrite', 'kfault') for o in case['ops']) and not case['cfg'].get('bad'):
